@@ -40,6 +40,7 @@ type FuncSpec struct {
 	Requires []*Clause
 	Ensures  []*Clause
 	Assumes  []*Clause
+	Lemmas   []*Clause // facts about ghost predicates assumed at entry (definitions, inductive consequences); listed as assumptions
 	Loops    []*LoopSpec
 	Waive    []*Waiver
 	MayPanic string
@@ -379,6 +380,10 @@ func (S *Specs) parseClause(file string, line int, cur *FuncSpec, word, rest str
 		// a postcondition callers may rely on that is NOT proved (listed as an assumption)
 		if c := mk(rest); c != nil {
 			cur.Assumes = append(cur.Assumes, c)
+		}
+	case "lemma":
+		if c := mk(rest); c != nil {
+			cur.Lemmas = append(cur.Lemmas, c)
 		}
 	case "faults":
 		cur.Faults = append(cur.Faults, strings.Fields(rest)...)
